@@ -251,4 +251,19 @@ theorem C19_normalize_sum_one (h : Hist) (hm : h.mass ≠ 0) :
   have : ((h.mass : Nat) : Rat) ≠ 0 := by exact_mod_cast hm
   field_simp
 
+/-! ### non-vacuity: concrete instances -/
+
+example :
+    let a : FillArgs := { c := .u8, bw := 2, sel := [], applymask := true, setlimits := true, lower := [1], upper := [3] }
+    fill a [] [([5], true), ([4], false), ([7], true), ([9], true), ([2], true)] = [([2], 1), ([3], 1), ([1], 1)] := by decide
+example : Ch.u8.lo ≤ 200 ∧ (200 : Int) ≤ Ch.u8.hi ∧ scale .u8 200 3 = 66 := by decide
+example : (1 : Int) ≤ 2 ∧ (7 : Int) ≤ 10 ∧ (prefillLoop 2 10 ((10 - 7 : Int).toNat + 1) 7 []).1 = [([3], 0)] := by decide
+example : cumulative 1 [([5], 2), ([1], 1), ([3], 4)] = [([1], 1), ([3], 5), ([5], 7)] := by decide
+example : cumulative 2 [([3, 1], 1), ([3, 2], 1), ([4, 1], 1), ([4, 2], 1)] = [([3, 1], 1), ([3, 2], 2), ([4, 1], 2), ([4, 2], 4)] := by decide
+example : subAxes [0] [([1, 3], 1), ([2, 3], 1), ([1, 4], 1)] = [([1], 2), ([2], 1)]
+    ∧ subRange [0] [2, 2] [9, 9] [([1, 3], 1), ([2, 3], 1), ([1, 4], 1)] = [([2, 3], 1)]
+    ∧ (Hist.keys [([1, 3], 1), ([2, 3], 1), ([1, 4], 1)]).Nodup := by decide
+example : Hist.mass [([5], 2), ([6], 1)] ≠ 0 := by decide
+example : vectorFill 4 [7, 7] [1, 3, 3] = [7, 8, 0, 2] := by decide
+
 end GilVerif.Props.C19
